@@ -278,6 +278,16 @@ def run(repo, rep):
     rep.run_borrowed(c10, {"C10-d": "C06-m"}, repo)
     rep.run_borrowed(c15, {"C15-e": "C06-d"}, repo, only_sites=("register_command_stream_util", "register_command_stream_generator", "architecture_features", "architecture_allocator"))
     rep.run_borrowed(c04, {"C04-a": "C06-l"}, repo)
+    # IB_END / AB_START are computed by the block configuration code: the IFM block depth per precision is decided there [shared with C15-i]
+    rep.run_borrowed(c15, {"C15-i": "C06-m"}, repo)
+    rep.clause("C06-w", "the DMA source, destination and length registers are emitted in the 40-bit form (cmd1_with_address): on Ethos-U65 a DMA may move 2^32 bytes or more, the 32-bit form drops bits 32..39 of the length silently (reviewed table, frozen from the tree)")
+    gd_ = repo.mod("register_command_stream_generator").func("generate_dma_op")
+    forms = {}
+    for c_ in ast.walk(gd_):
+        if isinstance(c_, ast.Call) and isinstance(c_.func, ast.Attribute) and c_.func.attr in ("cmd1_with_address", "cmd1_with_offset") and c_.args:
+            forms[str(norm(c_.args[0])).split(".")[-1]] = c_.func.attr
+    for reg_ in ("NPU_SET_DMA0_SRC", "NPU_SET_DMA0_DST", "NPU_SET_DMA0_LEN"):
+        rep.check(forms.get(reg_) == "cmd1_with_address", "C06-w", _site("generate_dma_op"), f"{reg_} is emitted with cmd1_with_address", f"emitted with {forms.get(reg_)}: the upper 8 bits of a 40-bit value are lost")
     # the registers of an operation are a function of that operation: the command stream modules keep no process-wide memo of earlier results
     from . import c14
 
